@@ -243,6 +243,51 @@ let mode_gemhist path =
   close_in ic;
   Printf.printf "GEMHIST %d %d %d\n" !n !bad !steps_total
 
+
+(* manip FILE: direct calls of the text-level functions (harness/manip.go) recomputed with the model *)
+let mode_manip path =
+  let ic = open_in path in
+  let n = ref 0 and bad = ref 0 in
+  let dec t = Utf8.decode (bytes_of_tok t) in
+  let enc rs = tok_of_bytes (Utf8.encode rs) in
+  let list_of_tok t = if t = "~" then [] else Stdlib.List.map dec (String.split_on_char ';' t) in
+  let tok_of_list l = if l = [] then "~" else String.concat ";" (Stdlib.List.map enc l) in
+  let mat_of_tok t = if t = "~" then [] else Stdlib.List.map list_of_tok (String.split_on_char '/' t) in
+  let res f = (match f () with Res.Ok x -> x | _ -> "P") in
+  (try while true do
+       let l = input_line ic in
+       (match String.split_on_char ' ' l with
+        | id :: kind :: rest ->
+          let rec split_at acc = function
+            | "=>" :: [r] -> (Stdlib.List.rev acc, r)
+            | x :: tl -> split_at (x :: acc) tl
+            | [] -> (Stdlib.List.rev acc, "?") in
+          let (args, impl) = split_at [] rest in
+          let model =
+            (match kind, args with
+             | "CS", [t; sep] -> res (fun () -> Res.bind (Manip.collapse_space cls (dec t) (dec sep)) (fun r -> Res.Ok (enc r)))
+             | "WR", [t; w; sep] -> res (fun () -> Res.bind (Manip.wrap cls (dec t) (z_of_string w) (dec sep)) (fun b -> Res.Ok (tok_of_list b.Tb.b_lines)))
+             | "JL", [t; w] -> res (fun () -> Res.bind (Manip.justify_line cls (dec t) (z_of_string w)) (fun r -> Res.Ok (enc r)))
+             | "AL", [k; t; w] ->
+               let f = (match k with "0" -> Manip.align_left | "1" -> Manip.align_right | _ -> Manip.align_center) in
+               enc (f cls (dec t) (z_of_string w))
+             | "CC", [lt; rt; gap] ->
+               let blk l = { Tb.b_lines = list_of_tok l; Tb.b_sep = []; Tb.b_trailing = false } in
+               res (fun () -> Res.bind (Manip.combine_column_blocks cls (blk lt) (blk rt) (z_of_string gap)) (fun b -> Res.Ok (tok_of_list b.Tb.b_lines)))
+             | "MT", [d; w; sep; hd; bd; cs] ->
+               tok_of_list (Table.make_table cls upp (mat_of_tok d) (z_of_string w) (dec sep) (hd = "1") (bd = "1") (dec cs)).Tb.b_lines
+             | "RI", [sz; s; e] ->
+               let (a, b) = Util.range_to_indexes (z_of_string sz) (z_of_string s) (z_of_string e) in
+               string_of_z a ^ "," ^ string_of_z b
+             | _ -> "?") in
+          incr n;
+          if model <> impl then begin
+            incr bad; if !bad <= 20 then Printf.printf "MANIPDIFF %s %s impl=%s model=%s\n" id kind impl model end
+        | _ -> ())
+     done with End_of_file -> ());
+  close_in ic;
+  Printf.printf "MANIP %d %d\n" !n !bad
+
 (* probes FILE: first line "CTX n pre suf ...", then "value signature" lines; the model's signature
    (break bits between all adjacent positions and cluster count, per probe context) depends on the
    value only through its class, so it is computed once per class *)
@@ -331,5 +376,6 @@ let () =
   | [_; "sweepcls"; p] -> mode_sweepcls p
   | [_; "gemhist"; p] -> mode_gemhist p
   | [_; "probes"; p] -> mode_probes p
+  | [_; "manip"; p] -> mode_manip p
   | [_; c; r] -> mode_cases c r
   | _ -> prerr_endline "usage: driver CASES RESULTS | driver split FILE | driver sweepcls FILE"; exit 2
